@@ -26,6 +26,7 @@ SEEDS = {
  'C14b': ('C14', 'puml parse_row_right: action length clamped to 0 when the guard precedes the action list (same edit as C14a, found independently)', 'a transition line of the form  A -> B : ev [guard] / action'),
  'C15b': ('C15', 'backmp11 event_occurrence: user-provided copy constructor that forgets m_marked_for_deletion', 'machine copied right after a LIMITED pool drain (process_event_pool(n)) - the copy replays the processed occurrence'),
  'C17a': ('C17', 'back is_flag_active fold: wrong early break', '>= 3 regions where regions 0 and 1 agree and a later one differs'),
+ 'C17b': ('C17', 'backmp11 recursive_visit_set: submachine_needs_traversal computed from the submachine\'s DIRECT states only (a type computation)', 'flag carried only by a state two or more submachine levels below the queried machine'),
  'C18a': ('C18', 'back defer_event_kleene_helper: binds the functor argument ev (default-constructed type carrier) instead of any_cast<Event>(m_event)', 'Kleene row that defers (front::Defer) an event whose payload differs from a default-constructed one'),
  'C02b': ('C02', 'backmp11 state_visitor_impl active visit: loops interchanged (state list outer, regions inner)', 'exit of a multi-region machine while an earlier region is in a state with a larger id than a later region'),
  'C03b': ('C03', 'back start(): re-initialisation of m_states from the initial states removed ("the constructor did it")', 'stop() and start() again with a region off its initial state'),
